@@ -57,12 +57,28 @@ FprLen(kv) == CASE kv = 3 -> 16 [] kv = 4 -> 20 [] kv = 6 -> 32
 (* key id: v4 = low 64 bits of the fingerprint, v6 = high 64 bits, v3 = low 64 bits of the RSA modulus *)
 KeyIdRule(kv) == CASE kv = 3 -> "low64_of_modulus" [] kv = 4 -> "low64_of_fingerprint" [] kv = 6 -> "high64_of_fingerprint"
 
-(* where the library itself embeds identities when it signs / encrypts *)
+(* where the library itself embeds identities when it signs / encrypts; "of" says WHOSE identity it must be *)
+Site(site, value, of) == [site |-> site, value |-> value, of |-> of]
 EmbedSites(kv) ==
-  {[site |-> "issuer_fingerprint_subpacket", value |-> "fingerprint"]}
-  \cup (IF kv = 6 THEN {} ELSE {[site |-> "issuer_key_id_subpacket", value |-> "keyid"]})
-  \cup (IF kv = 6 THEN {[site |-> "ops_v6", value |-> "fingerprint"], [site |-> "pkesk_v6", value |-> "fingerprint"]}
-        ELSE {[site |-> "ops_v3", value |-> "keyid"], [site |-> "pkesk_v3", value |-> "keyid"]})
+  {Site("data_signature.issuer_fingerprint_subpacket", "fingerprint", "signer"),
+   Site("certification_third_party.issuer_fingerprint_subpacket", "fingerprint", "signer"),
+   Site("attribute_certification_third_party.issuer_fingerprint_subpacket", "fingerprint", "signer")}
+  \cup (IF kv = 6 THEN {Site("data_signature.issuer_key_id_subpacket", "absent", "signer"),
+                        Site("ops_v6", "fingerprint", "signer"), Site("ops_v6.custom_subpackets", "fingerprint", "signer"),
+                        Site("pkesk_v6", "fingerprint", "recipient_subkey")}
+        ELSE {Site("data_signature.issuer_key_id_subpacket", "keyid", "signer"),
+              Site("certification_third_party.issuer_key_id_subpacket", "keyid", "signer"),
+              Site("attribute_certification_third_party.issuer_key_id_subpacket", "keyid", "signer"),
+              Site("ops_v3", "keyid", "signer"), Site("ops_v3.custom_subpackets", "keyid", "signer"),
+              Site("pkesk_v3", "keyid", "recipient_subkey")})
+
+(* attribution of a signature to a candidate key through the identities it names (Signature::match_identity):
+   nothing named -> candidate; otherwise some named key id or fingerprint must be the candidate's *)
+IssuerMatches(hasIds, idEq, hasFprs, fprEq) == (~hasIds /\ ~hasFprs) \/ (hasIds /\ idEq) \/ (hasFprs /\ fprEq)
+(* the rule never attributes on a value that is not the candidate's, and never misses one that is *)
+MatchSound == \A hi \in BOOLEAN, ie \in BOOLEAN, hf \in BOOLEAN, fe \in BOOLEAN :
+  /\ ((hi \/ hf) /\ IssuerMatches(hi, ie, hf, fe)) => ((hi /\ ie) \/ (hf /\ fe))
+  /\ ((hi /\ ie) \/ (hf /\ fe)) => IssuerMatches(hi, ie, hf, fe)
 
 VARIABLE phase
 Init == phase = 0
@@ -81,6 +97,7 @@ LayoutConsistent == (phase \in {0, 1}) =>
     /\ \A i \in 1..Len(p) : p[i].k = "keyframe" => ((p[i].b = 155) = (p[i].c = 4))
     /\ (sv = 3) = (p[Len(p)].k = "v3tail")
     /\ (sv # 3 => p[Len(p)].k = "trailer" /\ p[Len(p) - 1].k = "sigfields" /\ p[Len(p) - 1].c = (IF sv = 6 THEN 4 ELSE 2))
+MatchRule == (phase \in {0, 1}) => MatchSound
 (* the same key is hashed identically in its fingerprint and in every signature over it *)
 FingerprintFramingAgrees == (phase \in {0, 1}) =>
   \A kv \in {4, 6} : \A sv \in {4, 6} : LET p == ObjectPart(31, sv, "-", kv) IN <<p[1].b, p[1].c>> = <<FprPreimage(kv)[1].b, FprPreimage(kv)[1].c>>
